@@ -192,15 +192,33 @@ func c06Step(w *World, h *HistRun, i int) (fs []Finding) {
 		if u <= 0 {
 			continue
 		}
-		used, _ := onlineUsed(st.Op, m.RG)
-		rem := resOf(st.Pre, k) - u*used
-		if rem < 0 {
-			rem = 0
+		// money still available = everything ever credited minus the rated price of all usage reported so far
+		// (ghost accounting by the driver; equals balance + unconsumed reservation whenever C01 holds, and does
+		// not trust the CHF's own idea of its reservation)
+		var initial int64
+		for _, a := range w.Cfg.Accounts {
+			if a.Supi == st.Supi && a.RG == m.RG {
+				initial, _ = strconv.ParseInt(a.Quota, 10, 64)
+			}
 		}
-		avail := b0 + rem
-		if b0 < 0 {
-			avail = rem
+		avail := initial
+		for j := 0; j <= i; j++ {
+			sj := h.Steps[j]
+			if sj.Resp.Code/100 != 2 || sj.Supi != st.Supi {
+				continue
+			}
+			if sj.Op.K == "recharge" && sj.Op.RG == m.RG && j < i {
+				avail += sj.Op.Amt
+			}
+			if sj.Op.K == "update" || sj.Op.K == "release" {
+				uj, _ := onlineUsed(sj.Op, m.RG)
+				avail -= u * uj
+			}
 		}
+		if avail < 0 {
+			avail = 0
+		}
+		rem := avail - b0
 		buys := avail / u
 		var ui *UnitInfo
 		for j := range st.Units {
